@@ -24,7 +24,7 @@ Definition spec_level (o : op) : Z :=
   | BComma => 1
   | BAssign | BAddAssign | BSubAssign | BMulAssign | BDivAssign | BRemAssign | BPowAssign
   | BShlAssign | BShrAssign | BUShrAssign | BBitOrAssign | BBitAndAssign | BBitXorAssign
-  | BNullishAssign | BLogOrAssign | BLogAndAssign => 4
+  | BNullishAssign | BLogOrAssign | BLogAndAssign | UYield => 4
   | BNullish => 6 | BLogOr => 7 | BLogAnd => 8 | BBitOr => 9 | BBitXor => 10 | BBitAnd => 11
   | BLooseEq | BLooseNe | BStrictEq | BStrictNe => 12
   | BLt | BLe | BGt | BGe | BIn | BInstanceof => 13
@@ -37,7 +37,7 @@ Definition spec_level (o : op) : Z :=
   end.
 Definition S_Unary := 18. Definition S_Update := 19. Definition S_Member := 22.
 
-Definition is_assign (o : op) : bool := spec_level o =? 4.
+Definition is_assign (o : op) : bool := (spec_level o =? 4) && negb (op_eqb o UYield).
 Definition is_update (o : op) : bool :=
   match o with UPreDec | UPreInc | UPostDec | UPostInc => true | _ => false end.
 
@@ -54,6 +54,15 @@ Definition find_op (k : okind) (t : tok) : option op :=
 Definition prefix_op := find_op KPre.
 Definition postfix_op := find_op KPost.
 Definition binary_op := find_op KBin.
+
+(* prefix operators: the binding strength up to which one may start an operand, the strength with which
+   its own operand is parsed, and whether the [In] parameter reaches the operand.
+   UnaryExpression : (delete | void | typeof | + | - | ~ | ! | await) UnaryExpression   -- anywhere below "new"
+   YieldExpression[In] : yield AssignmentExpression[?In]   -- an AssignmentExpression (the grammar is taken with
+   [+Yield]; "yield" without operand and "yield *" are outside the fragment) *)
+Definition pre_max (o : op) : Z := if op_eqb o UYield then 3 else 19.
+Definition pre_arg (o : op) : Z := if op_eqb o UYield then 3 else 18.
+Definition pre_in (o : op) (ni : bool) : bool := op_eqb o UYield && ni.
 
 Definition is_dot (t : tok) : bool := tok_eqb t (TP [46]).
 Definition is_quest (t : tok) : bool := tok_eqb t (TP [63]).
@@ -135,9 +144,9 @@ Fixpoint parse_expr (fuel : nat) (ni : bool) (L : Z) (ts : list tok) : option (e
         end
       else match prefix_op t with
       | Some o =>
-          if S_New <=? L then None
-          else match parse_expr n false S_Unary r with
-          | Some (v, r') => if negb (is_update o) || is_target v then parse_suffix n ni L (EUn o v) S_Unary r' else None
+          if pre_max o <? L then None
+          else match parse_expr n (pre_in o ni) (pre_arg o) r with
+          | Some (v, r') => if negb (is_update o) || is_target v then parse_suffix n ni L (EUn o v) (spec_level o) r' else None
           | None => None
           end
       | None =>
